@@ -34,7 +34,7 @@ RULE = ('files: first group = every non-empty subset (size <= 3, thorough also t
         '(group / alias x UPPER, lower, mIxEd; unknown group): every ordered selection of <= 3 distinct labels x label case, bare-string '
         'label, unknown label at every position; every value over the 6 alphabet bits plus values with undefined bits, as int and '
         'np.uint64 and (list form) as np.int64 two\'s complement scalar / 0-d array and 0-d uint64 array, list and concat; sdss_flagexist in its 4 return shapes. A case is non-trivial unless it is the empty label list or '
-        'the value 0. history shards: every sequence X, Y, X (thorough also X, Y, Z) of 5 files (different groups / same groups with other labels and bits / subset / alias name reused as a group) loaded in ONE process, the full query set after each load against that file\'s own rows, including group and label names that only exist in other files (must be unknown). Distinct = distinct (load history, file rows, query).')
+        'the value 0. history shards: every sequence X, Y, X (thorough also X, Y, Z) of 5 files (different groups / same groups with other labels and bits / subset / alias name reused as a group) loaded in ONE process, the full query set after each load against that file\'s own rows, including group and label names that only exist in other files (must be unknown). surface shards: 11 (quick 8) representative files x 11 non-default file surfaces (no final newline, CRLF, CRLF without final newline, trailing blank lines / blanks / comment with and without newline, comment and blank lines between rows, trailing comments on rows, indented rows, tab separators), one file per shard, full query set. Distinct = distinct (load history, file surface, file rows, query).')
 ASSUMPTIONS = ['group, alias and label names in the file are upper-case (as in sdssMaskbits.par); case-insensitivity concerns the query',
                'labels passed to sdss_flagval are distinct (the property speaks of a set of distinct labels); one label per bit in a group',
                'values are 64-bit patterns given as Python int 0..2**64-1, np.uint64 scalar / 0-d array, or signed two\'s complement np.int64 scalar / 0-d array; negative Python ints and wider values are not generated',
@@ -78,16 +78,45 @@ FULL = (1 << 64) - 1
 
 
 # ------------------------------------------------------------------ files
-def render(rows):
-    out = [HEADER]
+SURFACES = ('lf', 'no-final-newline', 'crlf', 'crlf-no-final-newline', 'trailing-blank-lines', 'trailing-blanks-no-newline',
+            'trailing-comment', 'trailing-comment-no-newline', 'comments-and-blanks-between-rows', 'inline-comments',
+            'indented-rows', 'tab-separated')
+
+
+def render(rows, surface='lf'):
+    """The text of the file.  `surface` varies only what the yanny format leaves free: line terminator, presence of the
+    final newline, trailing blank/comment lines, comment and blank lines between rows, trailing comments on rows,
+    indentation, tabs as separators."""
+    sep = '\t' if surface == 'tab-separated' else ' '
+    data = []
     for r in rows:
         if r[0] == 'maskbits':
-            out.append('maskbits %s %2d %s "bit %d of %s"\n' % (r[1], r[2], r[3], r[2], r[1]))
+            line = sep.join(['maskbits', r[1], '%2d' % r[2], r[3], '"bit %d of %s"' % (r[2], r[1])])
         elif r[0] == 'masktype':
-            out.append('masktype %s %d "Mask bits of group %s."\n' % (r[1], r[2], r[1]))
-        elif r[0] == 'maskalias':
-            out.append('maskalias %s %s "%s is a synonym for %s."\n' % (r[1], r[2], r[2], r[1]))
-    return ''.join(out)
+            line = sep.join(['masktype', r[1], '%d' % r[2], '"Mask bits of group %s."' % r[1]])
+        else:
+            line = sep.join(['maskalias', r[1], r[2], '"%s is a synonym for %s."' % (r[2], r[1])])
+        if surface == 'indented-rows':
+            line = '   ' + line
+        if surface == 'inline-comments':
+            line += '   # row of ' + r[1]
+        if surface == 'comments-and-blanks-between-rows':
+            data += ['# next row', '']
+        data.append(line)
+    lines = HEADER.split('\n')[:-1] + data
+    nl = '\r\n' if surface.startswith('crlf') else '\n'
+    text = nl.join(lines)
+    if surface in ('no-final-newline', 'crlf-no-final-newline'):
+        return text
+    if surface == 'trailing-blank-lines':
+        return text + nl + nl + '   ' + nl + nl
+    if surface == 'trailing-blanks-no-newline':
+        return text + '   '
+    if surface == 'trailing-comment':
+        return text + nl + '# end of file' + nl
+    if surface == 'trailing-comment-no-newline':
+        return text + nl + '# end of file'
+    return text + nl
 
 
 def oracle_table(rows):
@@ -191,6 +220,16 @@ def tasks(tier):
         for scheme in ('A', 'B'):
             for second in ('none', 'disjoint', 'shared', 'shared3'):
                 t.append({'bits': list(SIGMA), 'scheme': scheme, 'second': second, 'thorough': T})
+    # file-surface layer: the same logical files in every surface form the format allows (one file per shard)
+    surf_files = [HIST_FILES[x] for x in sorted(HIST_FILES)]
+    surf_files += [file_rows([0, 31, 63], 'A', 'shared', alias, order)
+                   for alias, order in (('none', 'asc'), ('before', 'rev'), ('middle', 'split1'), ('second', 'interleave'))]
+    surf_files += [file_rows([63], 'A', 'none', 'none', 'asc'), file_rows([1, 62], 'B', 'none', 'after', 'asc')]
+    if not T:
+        surf_files = surf_files[:5] + surf_files[5:7] + surf_files[-1:]
+    for rows in surf_files:
+        for surface in SURFACES[1:]:
+            t.append({'k': 'surface', 'rows': rows, 'surface': surface, 'thorough': T})
     # load histories inside one process: X, Y, X (thorough also X, Y, Z) over the history files
     names = sorted(HIST_FILES)
     for x, y in itertools.permutations(names, 2):
@@ -520,18 +559,27 @@ def check_query(loaded, groups, alias, q):
     return out, 'bad:' + out[0][0]
 
 
-def load_file(rows, tmpdir):
+def load_file(rows, tmpdir, surface='lf'):
     """Write the file, load it with set_maskbits, delete it; (loaded, None) or (None, exception)."""
     import pydl.pydlutils.sdss as S
     path = os.path.join(tmpdir, 'maskbits.par')
-    with open(path, 'w') as fh:
-        fh.write(render(rows))
+    with open(path, 'w', newline='') as fh:
+        fh.write(render(rows, surface))
     try:
         return S.set_maskbits(maskbits_file=path), None
     except Exception as e:  # noqa: BLE001
         return None, e
     finally:
         os.remove(path)
+
+
+def _fails_plain(rows, groups, alias, q, sig, tmpdir):
+    """Does the same query fail with the same signature when the file is written in the plain LF surface?"""
+    loaded, exc = load_file(rows, tmpdir)
+    if exc is not None:
+        return True
+    bad, _o = check_query(loaded, groups, alias, q)
+    return sig in [s for s, _m in bad]
 
 
 def run_task(task):
@@ -542,13 +590,16 @@ def run_task(task):
     try:
         history = []          # files loaded earlier in this process, needed to replay a violation faithfully
         is_hist = task.get('k') == 'history'
-        for step, rows in enumerate([HIST_FILES[x] for x in task['seq']] if is_hist else files_of(task)):
+        surface = task.get('surface', 'lf')
+        extra = {} if surface == 'lf' else {'surface': surface}
+        files = ([HIST_FILES[x] for x in task['seq']] if is_hist else [task['rows']] if task.get('k') == 'surface' else files_of(task))
+        for step, rows in enumerate(files):
             groups, alias = oracle_table(rows)
-            loaded, exc = load_file(rows, tmpdir)
-            fkey = json.dumps([history, rows] if is_hist else rows)
+            loaded, exc = load_file(rows, tmpdir, surface)
+            fkey = json.dumps([history, rows] if is_hist else [surface, rows] if extra else rows)
             earlier, history = list(history), history + [rows]
             if exc is not None:
-                case = {'rows': rows, 'q': None, 'history': earlier}
+                case = dict({'rows': rows, 'q': None, 'history': earlier}, **extra)
                 acc.case((fkey, 'load'), True, 'bad:set_maskbits', sample=case)
                 acc.violation('set_maskbits:exception:%s' % type(exc).__name__, case, repr(exc))
                 continue
@@ -557,9 +608,12 @@ def run_task(task):
                 trivial = (q['f'] == 'flagval' and q['labels'] == []) or (q['f'] == 'flagname' and q['value'] == 0)
                 if is_hist and outcome.startswith('ok:'):
                     outcome = 'ok:after-%d-earlier-loads:%s' % (step, outcome.split(':')[1])
-                acc.case((fkey, json.dumps(q, sort_keys=True)), not trivial, outcome, sample={'rows': rows, 'q': q})
+                if extra and outcome.startswith('ok:'):
+                    outcome = 'ok:surface-%s:%s' % (surface, outcome.split(':')[1])
+                acc.case((fkey, json.dumps(q, sort_keys=True)), not trivial, outcome, sample=dict({'rows': rows, 'q': q}, **extra))
                 for sig, msg in bad:
-                    acc.violation(sig, {'rows': rows, 'q': q, 'history': earlier}, msg)
+                    acc.violation(sig + (':file-surface-' + surface if extra and not _fails_plain(rows, groups, alias, q, sig, tmpdir) else ''),
+                                  dict({'rows': rows, 'q': q, 'history': earlier}, **extra), msg)
     finally:
         S.maskbits = saved
         shutil.rmtree(tmpdir, ignore_errors=True)
@@ -575,12 +629,16 @@ def replay(case):
         for old in case.get('history') or []:      # re-create the loads that preceded this file in the shard's process
             load_file([list(r) for r in old], tmpdir)
         groups, alias = oracle_table(rows)
-        loaded, exc = load_file(rows, tmpdir)
+        surface = case.get('surface', 'lf')
+        loaded, exc = load_file(rows, tmpdir, surface)
         if exc is not None:
             return [('set_maskbits:exception:%s' % type(exc).__name__, repr(exc))]
         if case.get('q') is None:
             return []
         bad, _o = check_query(loaded, groups, alias, case['q'])
+        if surface != 'lf':
+            bad = [(sig + ('' if _fails_plain(rows, groups, alias, case['q'], sig, tmpdir) else ':file-surface-' + surface), msg)
+                   for sig, msg in bad]
         return bad
     finally:
         S.maskbits = saved
